@@ -11,7 +11,14 @@ import (
 
 // Tournament world: real tables that follow the regulator's instructions, as the repo's own tests do.
 
+type keptList struct {
+	id   string
+	list []string // the slice as delivered
+	was  []string // what it said then
+}
+
 type World struct {
+	keptLists     []keptList
 	buf           []string // the caller's message buffer, re-used for every call that carries names
 	ghosts        int
 	prop          string
@@ -111,6 +118,12 @@ func newWorld(prop string, props []string, max, min int, rep *Report, seed int64
 			}
 			w.rep.Inc("assignments")
 			w.give(id, players, "assign")
+			// the host also keeps the message it received (a log, a retry queue): what the regulator handed
+			// over is the host's from now on
+			w.keptLists = append(w.keptLists, keptList{id: id, list: players, was: append([]string{}, players...)})
+			if len(w.keptLists) > 6 {
+				w.keptLists = w.keptLists[1:]
+			}
 			return nil
 		}),
 	)
@@ -220,6 +233,14 @@ func (w *World) check(tag string) {
 	}
 	w.rep.Inc("oracle_evaluations")
 	w.rep.Inc("quiescent_checks")
+	for _, k := range w.keptLists {
+		for i := range k.was {
+			if k.list[i] != k.was[i] {
+				w.fail("C09/handed-out-list-rewritten", "after="+tag, fmt.Sprintf("the list handed to table %s read %v when it was delivered and reads %v now: the regulator went on writing to memory it had given away (players of that hand-out dropped, others doubled for a host that keeps the list)", k.id, k.was, k.list))
+				return
+			}
+		}
+	}
 	q := reg.VerifWaitingQueue(w.r)
 	inq := map[string]int{}
 	for _, p := range q {
